@@ -213,7 +213,7 @@ func mdIDs(md metadata.MD, key string) string {
 	if len(vs) == 0 {
 		return "md:-"
 	}
-	return "md:" + strings.Join(vs, ",")
+	return "md:" + strings.Join(vs, "+")
 }
 
 // ---------------------------------------------------------------------------
